@@ -484,11 +484,24 @@ fn check_result(prog: &Program, ty: &str, rp: &RefParts, res: &Result<GenericPur
             }
             acc.sig(&("post-refused", c));
         },
-        (Err(c), other) => viol(acc, case, "post-hook-check-missing", format!("{} although the parts after the hook must be refused with {}: {:?}", describe(other), c.name(), rp)),
+        (Err(c), other) => {
+            viol(acc, case, "post-hook-check-missing", format!("{} although the parts after the hook must be refused with {}: {:?}", describe(other), c.name(), rp));
+            // C12's clause for user-supplied types: a malformed checksum written by the hook is refused
+            if let (Ok(p), Some(text)) = (other, rp.quals.get("checksum").filter(|v| !v.is_empty())) {
+                if R::checksum_canonical(text).is_none() && !rp.name.is_empty() {
+                    acc.violate(Violation { prop: "C12", kind: "hook-checksum-not-refused".into(), case: case.clone(), detail: format!("the hook left the malformed checksum {:?}; the PURL is handed out with {:?}", text, p.qualifiers().get("checksum")) });
+                }
+            }
+        },
         (Ok(want), Ok(p)) => {
             let got = observe(p);
             if got != want {
                 viol(acc, case, "post-hook-value", format!("accessors {:?}, expected {:?}", got, want));
+                // C12's clause for user-supplied types: whatever checksum the hook leaves is carried in its one canonical text
+                let (gc, wc) = (got.quals.iter().find(|(k, _)| k == "checksum"), want.quals.iter().find(|(k, _)| k == "checksum"));
+                if gc != wc {
+                    acc.violate(Violation { prop: "C12", kind: "hook-checksum-not-canonical".into(), case: case.clone(), detail: format!("checksum {:?}, expected {:?}", gc, wc) });
+                }
             }
             acc.calls += 1;
             match guarded(|| p.to_string()) {
